@@ -1,7 +1,7 @@
 # C09 / C01 / C15 -- mchap/assemble/mcmc.py : the orchestration of the assemble sampler
 
 
-@contract("mchap.assemble.mcmc._denovo_assembler", machine_ints=True, merge_branches=True, props=["C09", "C01"], dead_branches=["if return_heated_trace @3 then", "if return_heated_trace @11 then"], variants=[{"read_counts": "None"}, {"read_counts": "some"}])
+@contract("mchap.assemble.mcmc._denovo_assembler", machine_ints=True, merge_branches=True, props=["C09", "C01"], dead_branches=["if return_heated_trace @2 then", "if return_heated_trace @8 then"], variants=[{"read_counts": "None"}, {"read_counts": "some"}])
 def _denovo_assembler(genotype: A[i1, 2], inbreeding: float, reads: A[f8, 3], read_counts: Opt[A[i8, 1]], n_alleles: A[i1, 1], steps: int, break_dist: A[f8, 1], recombination_step_probability: float, partial_dosage_step_probability: float, dosage_step_probability: float, temperatures: A[f8, 1], return_heated_trace: bool, llk_cache_threshold: int) -> Tup[A[i1, 4], A[f8, 2]]:
     requires(not return_heated_trace)  # the application always records the cold chain only
     requires(len(genotype) >= 1, len(genotype) <= 127, genotype.shape[1] >= 1, len(genotype) * genotype.shape[1] <= 2 ** 40)
